@@ -50,8 +50,10 @@ def run(ctx):
   r = tlc.expect_holds('Bsgs', 'MC_Bsgs_quick.cfg', timeout=3600)
   ctx.note_mc(r, 'Bsgs: completeness in every reachable cache state (the per-curve table shared by three searches)')
   q = ctx.quick
-  plans = [('rsa', 'GEN_Checks_rsa.cfg', 6 if q else 60, 4), ('ec', 'GEN_Checks_ec.cfg', 4 if q else 30, 3),
-           ('ecdsa', 'GEN_Checks_ecdsa.cfg', 2 if q else 20, 2)]
+  # thorough: the EC scenarios run with the default max_diff = 2^24 (a 2 GB table per curve and setting, minutes each), which bounds
+  # how many of them fit into an hour
+  plans = [('rsa', 'GEN_Checks_rsa.cfg', 6 if q else 60, 4), ('ec', 'GEN_Checks_ec.cfg', 4 if q else 12, 3),
+           ('ecdsa', 'GEN_Checks_ecdsa.cfg', 2 if q else 10, 2)]
   jobs = []
   for kind, cfg, num, depth in plans:
     beh, rr = scen.gen_behaviours(cfg, num, ctx.seed + 17, depth)
